@@ -8,6 +8,7 @@ require (
 	github.com/bolkedebruin/rdpgw v0.0.0
 	github.com/coreos/go-oidc/v3 v3.9.0
 	golang.org/x/oauth2 v0.18.0
+	google.golang.org/grpc v1.62.1
 	pgregory.net/rapid v1.3.0
 )
 
@@ -42,7 +43,6 @@ require (
 	golang.org/x/sys v0.29.0 // indirect
 	golang.org/x/text v0.21.0 // indirect
 	google.golang.org/genproto/googleapis/rpc v0.0.0-20240314234333-6e1732d8331c // indirect
-	google.golang.org/grpc v1.62.1 // indirect
 	google.golang.org/protobuf v1.33.0 // indirect
 )
 
